@@ -494,6 +494,11 @@ func ruleDecodersNoPanic(c *Ctx, pkgs map[string]bool) {
 					if strings.HasPrefix(sc.Name(), "Must") && !isPikeFunc(sc) {
 						bad = append(bad, fmt.Sprintf("%s: %s calls %s on decoded data: it panics instead of returning an error when the bytes are damaged", c.P.pos(in.Pos()), funcName(f), sc.String()))
 					}
+				case *ssa.TypeAssert:
+					n++
+					if !x.CommaOk {
+						bad = append(bad, fmt.Sprintf("%s: %s asserts a type without the comma-ok form (%s): when the value is of another type - an error of another kind, say, as for a truncated or trailer-damaged stream - the decoder panics instead of returning an error", c.P.pos(x.Pos()), funcName(f), x.AssertedType.String()))
+					}
 				case *ssa.MakeSlice:
 					n++
 					for _, sz := range []ssa.Value{x.Len, x.Cap} {
